@@ -70,9 +70,12 @@ def plan(tier, seed):
         for k, o in enumerate(os4):
             specs.append(dict(kind='roundtrip', names=n4, order=o,
                               sample=6000, hashseed=k))
+    # formulas over 12-70 variables (binders with many names), vf/big.py
+    from vf import big
+    specs.extend(big.specs(tier, seed, 'C05'))
     meta = dict(
         rule=RULE,
-        require=['matrix_formulas', 'paren_forms', 'binder_formulas',
+        require=['big_histories', 'binders_with_many_names', 'matrix_formulas', 'paren_forms', 'binder_formulas',
                  'random_formulas', 'roundtrips', 'constant_spellings',
                  'node_reference_formulas', 'comment_formulas',
                  'refused_formulas_in_between',
@@ -368,6 +371,9 @@ def roundtrip(ctx, spec):
 
 
 def run_shard(ctx, spec):
+    if spec['kind'] == 'big':
+        from vf import big
+        return ctx.guard('big', big.run, ctx, spec, case=spec)
     fn = dict(matrix=matrix, binders=binders, random=random_,
               roundtrip=roundtrip)[spec['kind']]
     ctx.guard(spec['kind'], fn, ctx, spec, case=spec)
